@@ -12,14 +12,28 @@
  */
 #include "vx.h"
 #include "c08.h"
+#ifdef C08_SMALL
+/* the small program set (argument forms, user identifiers, line numbers, PT_BEGIN_FIBRE, bodies of <= 2 nodes): cheap
+ * enough to be built once per build configuration. Its fibre family runs under the real scheduler (fibre.c linked as an
+ * object of its own, reached through the public header only). */
+#include <stdio_ext.h>
+#include <librfn/fibre.h>
+#include "c08_small.h"
+#include "c08_diag.h"
+#else
 #include "c08_shards.h"
+#endif
+#include "c08_childcode.h"
+
+env_t *c08_fenv;
+static const char *const fam_name[] = { "main", "b2", "shape", "ident", "lines", "fibre" };
+#define NFAM 6
 
 enum { EMIT, YIELD, WAIT, WAIT_UNTIL, EXIT, FAIL, EXIT_ON, FAIL_ON, SPAWN_INIT, RUN, CHECK, EMIT_OK, CALL, JZ, JMP, SETV, JGE2, INCV, END };
 
 /* ---- the reference interpreter: one "protothread" = (code, pc) */
 typedef struct vm { const ins_t *code; int pc; } vm_t;
 static vm_t vmchild[3];
-static const prog_t *children;
 
 static int vm_invoke(vm_t *m, env_t *E)
 {
@@ -35,11 +49,11 @@ static int vm_invoke(vm_t *m, env_t *E)
 		case FAIL: return PT_FAILED;
 		case EXIT_ON: if (E_env(E, i->a)) return PT_EXITED; m->pc++; break;
 		case FAIL_ON: if (E_env(E, i->a)) return PT_FAILED; m->pc++; break;
-		case SPAWN_INIT: vmchild[i->b].code = children[i->a].code; vmchild[i->b].pc = 0; m->pc++; break;
+		case SPAWN_INIT: vmchild[i->b].code = c08_childcode[i->a]; vmchild[i->b].pc = 0; m->pc++; break;
 		case RUN: { int r = vm_invoke(&vmchild[i->b], E); if (r < PT_EXITED) return r; spawn_res = r; m->pc++; break; }
 		case CHECK: if (spawn_res == PT_FAILED) return PT_FAILED; m->pc++; break;
 		case EMIT_OK: E_emit(E, 100 + (spawn_res != PT_FAILED)); m->pc++; break;
-		case CALL: { vmchild[i->b].code = children[i->a].code; vmchild[i->b].pc = 0; while (vm_invoke(&vmchild[i->b], E) < PT_EXITED) ; m->pc++; break; }
+		case CALL: { vmchild[i->b].code = c08_childcode[i->a]; vmchild[i->b].pc = 0; while (vm_invoke(&vmchild[i->b], E) < PT_EXITED) ; m->pc++; break; }
 		case JZ: m->pc = E_env(E, i->a) ? m->pc + 1 : i->b; break;
 		case JMP: m->pc = i->a; break;
 		case SETV: E->v[i->a] = 0; m->pc++; break;
@@ -56,6 +70,7 @@ static int vm_invoke(vm_t *m, env_t *E)
 #define HORIZON 48
 static uint8_t ans[MAXANS];
 static uint64_t n_runs, n_invocations, n_progs, n_second_runs, ret_count[4], n_blocked_in_child;
+static uint64_t fam_progs[NFAM], fam_runs[NFAM], fam_beyond[NFAM], n_fibre_dispatches;
 static vx_set distinct_traces;
 
 static const prog_t *cur_prog; static int cur_index;
@@ -70,23 +85,65 @@ static void fail(const char *clause, int nans, const char *fmt, ...)
 	free(m); free(sig.s); free(rep.s); free(as.s);
 }
 
+/* ---- scope of the line numbers: a blocking macro stores __LINE__ in a pt_t. Lines up to 65535 (what the documented
+ * 16-bit pt_t holds) must work; higher ones are judged only when the library's pt_t can hold them. */
+static uint64_t pt_max_line(void)
+{
+	pt_t m = (pt_t)-1;
+	if (m > 0) return (uint64_t)m;						/* unsigned */
+	return sizeof(pt_t) >= 8 ? INT64_MAX : (1ULL << (sizeof(pt_t) * 8 - 1)) - 1;	/* signed */
+}
+static int in_scope(const prog_t *p) { return p->maxline <= 65535 || p->maxline <= pt_max_line(); }
+
+#ifdef C08_SMALL
+/* ---- a fibre body is invoked by the real scheduler: fibre_run() when it is not queued (first run, after a wait, after
+ * exit), then one fibre_scheduler_next(); the scheduler re-initialises an exited fibre itself */
+static fibre_t c08_fib; static int c08_fib_ret, c08_fib_calls; static uint32_t c08_now;
+static int c08_fib_entry(fibre_t *f) { c08_fib_calls++; return c08_fib_ret = cur_prog->ffn(f); }
+uint32_t time_now(void) { return c08_now; }	/* platform hook referenced by util.c (ratelimit_check), never called here */
+#endif
+
+/* one invocation of the compiled program; -100: the scheduler did not dispatch the fibre exactly once */
+static int last_dispatches;
+static int invoke(pt_t *pt, env_t *R, int queue)
+{
+#ifdef C08_SMALL
+	if (cur_prog->ffn) {
+		c08_fenv = R;
+		if (queue) fibre_run(&c08_fib);
+		c08_fib_calls = 0;
+		(void)fibre_scheduler_next(++c08_now);
+		n_fibre_dispatches++;
+		last_dispatches = c08_fib_calls;
+		return c08_fib_calls == 1 ? c08_fib_ret : -100;
+	}
+#endif
+	(void)queue;
+	return cur_prog->fn(pt, R);
+}
+
 /* returns the number of answers consumed (so the explorer knows which positions exist), -1 after a violation */
 static int run_script(int nans)
 {
 	env_t R, M; pt_t pt; vm_t vm;
 	memset(&R, 0, sizeof(R)); memset(&M, 0, sizeof(M));
 	R.ans = M.ans = ans; R.nans = M.nans = nans;
-	n_runs++;
+	n_runs++; fam_runs[cur_prog->fam]++;
+	vx_lib_reset();		/* statics of the linked library (the scheduler of the fibre family) cannot leak between cases */
+#ifdef C08_SMALL
+	if (cur_prog->ffn) { fibre_init(&c08_fib, c08_fib_entry); c08_now = 0; }
+#endif
 	vx_hasher th; vx_h_init(&th); vx_h_u64(&th, (uint64_t)cur_index);	/* programs are partitioned among the workers: (program, trace) pairs are globally distinct */
 	for (int round = 0; round < 2; round++) {
 		/* round 1: re-invocation after exit, preceded by PT_INIT (the documented way to restart) */
 		PT_INIT(&pt); vm.code = cur_prog->code; vm.pc = 0;
-		int done = 0;
+		int done = 0, queue = 1;
 		for (int k = 0; k < HORIZON && !done; k++) {
 			R.neff = M.neff = 0;
 			int rr, mr;
-			if (VX_TRY) { rr = cur_prog->fn(&pt, &R); VX_END; }
+			if (VX_TRY) { rr = invoke(&pt, &R, queue); VX_END; }
 			else { VX_END; fail("fault", nans, "invocation %d of round %d: %s", k, round, vx_fault_msg); return -1; }
+			if (rr == -100) { fail("fibre-dispatch", nans, "invocation %d of round %d: after fibre_run() (when not queued) one fibre_scheduler_next() called the fibre %d times", k, round, last_dispatches); return -1; }
 			mr = vm_invoke(&vm, &M);
 			n_invocations++;
 			if (rr >= 0 && rr < 4) ret_count[rr]++;
@@ -102,11 +159,13 @@ static int run_script(int nans)
 			if (R.pos != M.pos) { fail("condition-evaluations", nans, "after invocation %d (round %d) the body has evaluated %d conditions, expected %d (PT_WAIT_UNTIL re-evaluates on every resumption, others once)", k, round, R.pos, M.pos); return -1; }
 			if (memcmp(R.v, M.v, sizeof(R.v))) { fail("loop-variable", nans, "persistent loop variables differ after invocation %d", k); return -1; }
 			if (rr >= PT_EXITED) done = 1;
+			queue = rr != PT_YIELDED;	/* a yielded fibre stays scheduled; a waiting one has to be woken */
 		}
 		if (!done) { fail("no-exit", nans, "not exited after %d invocations although every later answer is 'true'", HORIZON); return -1; }
 		if (round == 0) n_second_runs++;
 	}
-	vx_set_add(&distinct_traces, vx_h_done(&th));
+	/* b2 repeats programs of the main set under other build configurations: run and judged, but not counted as distinct again */
+	if (cur_prog->fam != 1) vx_set_add(&distinct_traces, vx_h_done(&th));
 	return R.pos;
 }
 
@@ -134,14 +193,21 @@ int main(int argc, char **argv)
 	vx_install_handlers();
 	vx_watchdog(2.0);
 	vx_set_init(&distinct_traces, 16);
-	children = c08_shard_children_0();
+#ifdef CONFIG_PT_UNWIND
+	/* the unwind messages of PT_FAIL go to stdout: discard them; no stdio lock, so that a fault caught in the middle of
+	 * one cannot leave the stream locked */
+	if (!freopen("/dev/null", "w", stdout)) _exit(3);
+#ifdef C08_SMALL
+	__fsetlocking(stdout, FSETLOCKING_BYCALLER);
+#endif
+#endif
 	int maxdev = vx_thorough() ? 4 : 3;
 	char *rp = vx_read_replay();
 	if (rp) {
 		const char *pi = vx_replay_field(rp, "program"); int want = pi ? atoi(pi) : -1, idx = 0;
 		const char *as = vx_replay_field(rp, "answers");
 		char abuf[64]; snprintf(abuf, sizeof(abuf), "%s", as ? as : "");
-		for (int s = 0; s < C08_NSHARDS; s++) for (const prog_t *p = c08_shards[s]; p->fn; p++, idx++) if (idx == want) {
+		for (int s = 0; s < C08_NSHARDS; s++) for (const prog_t *p = c08_shards[s]; p->code; p++, idx++) if (idx == want && in_scope(p)) {
 			cur_prog = p; cur_index = idx;
 			int n = (int)strlen(abuf); for (int i = 0; i < n && i < MAXANS; i++) ans[i] = (uint8_t)(abuf[i] - '0');
 			run_script(n);
@@ -149,16 +215,22 @@ int main(int argc, char **argv)
 		vx_finish();
 		return 0;
 	}
-	int idx = 0; uint64_t done = 0, skipped = 0;
-	for (int s = 0; s < C08_NSHARDS; s++) for (const prog_t *p = c08_shards[s]; p->fn; p++, idx++) {
+	int idx = 0; uint64_t done = 0, skipped = 0, beyond = 0, highest = 0; int sampled[NFAM] = {0};
+	for (int s = 0; s < C08_NSHARDS; s++) for (const prog_t *p = c08_shards[s]; p->code; p++, idx++) {
 		if (!vx_mine((uint64_t)idx)) continue;
+		if (!in_scope(p)) { beyond++; fam_beyond[p->fam]++; continue; }
 		if ((done & 63) == 0 && vx_deadline_passed()) { skipped++; continue; }
 		if (skipped) { skipped++; continue; }
+		if (vx_hangs_seen >= 3) { skipped++; continue; }	/* every hang costs watchdog periods: a few are enough */
 		cur_prog = p; cur_index = idx;
 		memset(ans, 1, sizeof(ans));
-		done++;
+		done++; fam_progs[p->fam]++;
+		if (p->maxline > highest) highest = p->maxline;
 		if (explore(0, 0, maxdev) < 0 && vx_too_many_violations()) break;
-		if (done % 997 == 1) vx_sample("program %d [%s]: explored with <=%d departures from the default answer", idx, p->text, maxdev);
+		if (vx_args.worker == 0 && (!sampled[p->fam] || (p->fam == 0 && done % 997 == 1))) {
+			sampled[p->fam] = 1;
+			vx_sample("%s program %d [%s]: explored with <=%d departures from the default answer", fam_name[p->fam], idx, p->text, maxdev);
+		}
 	}
 	n_progs = done;
 	vx_count("programs", n_progs); vx_count("programs_skipped_deadline", skipped);
@@ -166,6 +238,21 @@ int main(int argc, char **argv)
 	vx_count("invocations_compared", n_invocations); vx_count("restarts_after_exit_compared", n_second_runs);
 	for (int d = 0; d <= maxdev; d++) { char nm[48]; snprintf(nm, sizeof(nm), "answer_scripts_with_%d_departures", d); vx_count(nm, scripts_at_dev[d]); }
 	vx_count("returns_yielded", ret_count[0]); vx_count("returns_waiting", ret_count[1]); vx_count("returns_exited", ret_count[2]); vx_count("returns_failed", ret_count[3]);
+#ifdef C08_SMALL
+	/* per-family counts of the small set; a family whose compile unit was left out shows as 0 programs */
+	for (int f = 1; f < NFAM; f++) {
+		char nm[64];
+		snprintf(nm, sizeof(nm), "programs_%s", fam_name[f]); vx_count(nm, fam_progs[f]);
+		snprintf(nm, sizeof(nm), "evaluations_%s", fam_name[f]); vx_count(nm, fam_runs[f]);
+	}
+	vx_count("programs_lines_beyond_pt_t_not_judged", beyond);
+	vx_count("fibre_invocations_through_scheduler", n_fibre_dispatches);
+	vx_max("highest_line_of_a_blocking_point_judged", highest);
+	vx_max("highest_line_pt_t_can_hold", pt_max_line() > 0xffffffffULL ? 0xffffffffULL : pt_max_line());
+	for (int i = 0; c08_diag[i]; i++) vx_note("%s", c08_diag[i]);
+#else
+	(void)beyond; (void)highest;
+#endif
 	vx_and("exhaustive", skipped == 0);
 	vx_max("max_departures", (uint64_t)maxdev);
 	vx_finish();
